@@ -302,6 +302,21 @@ def run_rdapi(case, seed):
             return dict(ok=False, sig="C19/api-units/%s" % tag, nontrivial=True, resid=float(e),
                         msg="%s %s T=%g: %s of the crystal given in %s units, converted to Angstrom (x%g), differs from the eV/Angstrom run by %.3g (rel); ratio of norms %.4g" % (
                             case["xtal"], calc, case["T"], what, calc, L, e, np.linalg.norm(out["calc"][k] * L) / np.linalg.norm(out["default"][k])))
+    # history: the force constants are replaced after a first finite-temperature generation; the next one follows the new state
+    if calc is None and case["T"] > 0:
+        fc2 = fc * 1.44
+        ph0.force_constants = fc2.copy()
+        phx.quiet(ph0.generate_displacements, number_of_snapshots=3, temperature=case["T"], random_seed=11)
+        again = np.array(ph0.dataset["displacements"])
+        fresh = phx.make_phonopy(c, case["S"], None)
+        fresh.force_constants = fc2.copy()
+        phx.quiet(fresh.generate_displacements, number_of_snapshots=3, temperature=case["T"], random_seed=11)
+        want2 = np.array(fresh.dataset["displacements"])
+        e = np.abs(again - want2).max() / max(np.abs(want2).max(), 1e-12)
+        if e > 1e-7:
+            return dict(ok=False, sig="C19/api-history/generate-after-fc-change", nontrivial=True, resid=float(e),
+                        msg="%s: generate_displacements(temperature=%g) after replacing the force constants differs from a fresh object by %.3g (rel); rms ratio to the first generation %.3f (1.2 expected for fc x 1.44 classical... )" % (
+                            case["xtal"], case["T"], e, np.sqrt((out["default"][1] ** 2).mean() / (again ** 2).mean())))
     return dict(ok=True, nontrivial=bool(abs(L - 1) > 1e-9), transitions=4, outcome="ok:api-units")
 
 
